@@ -1,3 +1,59 @@
-import AsyncFix.Model.Tester
+/-
+Machine-checked counter-examples of the open findings of C20 (non-gating: when a finding is repaired in
+/repo and the model follows, the corresponding refutation stops compiling).
+-/
+import AsyncFix.Props.C20
 namespace AsyncFix.Findings.C20
+open AsyncFix.Tester AsyncFix.Props.C20
+
+def st0 : TState := { registered := ["c1"] }
+def o0 : OrderView := { clordId := "c1", qty := ⟨80, true⟩, price := ⟨800, true⟩, status := "A" }
+def aPendingNew : Args := { clordId := "c1", execType := "A", ordStatus := "A" }
+def aNew : Args := { clordId := "c1", execType := "0", ordStatus := "0", cumQty := some ⟨0, true⟩, leavesQty := some ⟨80, true⟩ }
+def aForeign : Args := { aNew with clordId := "zzz" }
+
+def msgOf (r : TState × Except Refusal RMsg) : RMsg := match r.2 with | .ok m => m | .error _ => default
+
+theorem eq_of_isOk (r : TState × Except Refusal RMsg) (h : r.2.isOk = true) : r = (r.1, .ok (msgOf r)) := by
+  obtain ⟨s, e⟩ := r
+  cases e with
+  | error x => simp [Except.isOk, Except.toBool] at h
+  | ok m => rfl
+
+def raisedFix (r : Except PExc (OrderView × Bool)) : Bool := match r with | .error .fixError => true | _ => false
+
+theorem eq_of_raisedFix {r : Except PExc (OrderView × Bool)} (h : raisedFix r = true) : r = .error .fixError := by
+  unfold raisedFix at h
+  split at h
+  · rfl
+  · cases h
+
+def r1 := fabricate none st0 o0 aPendingNew
+def r2 := fabricate none r1.1 o0 aNew
+
+/-- D27 / C20-orderid-unstable-before-first-processing: the two reports carry OrderID 1 and 2 -/
+theorem order_id_witness : (msgOf r1).str? 37 = some "1" ∧ (msgOf r2).str? 37 = some "2" := by decide +kernel
+
+theorem order_id_stable_full_refuted : ¬ order_id_stable_full := by
+  intro h
+  have e1 : fabricate none st0 o0 aPendingNew = (r1.1, .ok (msgOf r1)) := eq_of_isOk r1 (by decide +kernel)
+  have e2 : fabricate none r1.1 o0 aNew = (r2.1, .ok (msgOf r2)) := eq_of_isOk r2 (by decide +kernel)
+  have := h none st0 r1.1 r2.1 o0 aPendingNew aNew (msgOf r1) (msgOf r2) e1 e2
+  rw [order_id_witness.1, order_id_witness.2] at this
+  exact absurd this (by decide)
+
+def r3 := fabricate none st0 o0 aForeign
+
+/-- C20-foreign-clordid-accepted: accepted by the helper, `process_execution_report` raises FIXError -/
+theorem foreign_clordid_witness :
+    r3.2.isOk = true ∧ processExecReport o0 (msgOf r3) = .error .fixError :=
+  ⟨by decide +kernel, eq_of_raisedFix (by decide +kernel)⟩
+
+theorem fabricated_processable_full_refuted : ¬ fabricated_processable_full := by
+  intro h
+  have e : fabricate none st0 o0 aForeign = (r3.1, .ok (msgOf r3)) := eq_of_isOk r3 foreign_clordid_witness.1
+  obtain ⟨o', b, hp⟩ := h none st0 r3.1 o0 aForeign (msgOf r3) (by decide +kernel) e
+  rw [foreign_clordid_witness.2] at hp
+  cases hp
+
 end AsyncFix.Findings.C20
